@@ -25,7 +25,7 @@ func genC06Case(t *rapid.T) SSOCase {
 	spec.LenientLookup = rapid.Bool().Draw(t, "lenientlookup")
 	c := SSOCase{Spec: spec, Host: rapid.SampledFrom(reqHosts).Draw(t, "host")}
 	if spec.IdP.IssuerMode == "forwarded" && rapid.Bool().Draw(t, "fwd") {
-		c.Headers = [][2]string{{"Forwarded", "for=192.0.2.60;host=" + rapid.SampledFrom([]string{"public.idp.example", "proxy.example:444"}).Draw(t, "fwdhost") + ";proto=http"}}
+		c.Headers = [][2]string{{"Forwarded", "for=192.0.2.60;host=" + rapid.SampledFrom([]string{"public.idp.example", "\"proxy.example:444\""}).Draw(t, "fwdhost") + ";proto=http"}}
 	}
 	host := effHost(c)
 	c.SP = rapid.IntRange(0, len(spec.SPs)-1).Draw(t, "sp")
